@@ -342,6 +342,71 @@ func c03FirstAS(p *Path) uint32 {
 	return 0
 }
 
+// c03Key restates the documented preference (lower = preferred) WITHOUT using any of the
+// compareBy* functions or Path helpers under test: not LLGR-stale, reachable, highest LOCAL_PREF,
+// locally originated, shortest AS_PATH (SET = 1, confederation = 0; skipped when the option says
+// so), lowest ORIGIN, lowest MED, external over internal (confederation members are internal),
+// oldest (external only, unless external-compare-router-id), lowest router-id, lowest address.
+func c03Key(c *c03Cand, opt oc.RouteSelectionOptionsConfig) []int64 {
+	b := func(x bool) int64 {
+		if x {
+			return 1
+		}
+		return 0
+	}
+	lp := int64(100)
+	if c.lp != nil {
+		lp = int64(*c.lp)
+	}
+	aslen := int64(0)
+	if !opt.IgnoreAsPathLength {
+		for _, sg := range c.segs {
+			switch sg.typ {
+			case 2:
+				aslen += int64(len(sg.as))
+			case 1:
+				aslen++
+			}
+		}
+	}
+	med := int64(0)
+	if c.med != nil {
+		med = int64(*c.med)
+	}
+	src := c.src
+	if src == nil {
+		src = &PeerInfo{}
+	}
+	local := !src.Address.IsValid()
+	internal := src.Confederation || (src.AS == src.LocalAS && src.AS != 0)
+	age := int64(0)
+	if !internal && !opt.ExternalCompareRouterId {
+		age = c.ts
+	}
+	rid := int64(0)
+	if opt.ExternalCompareRouterId || internal {
+		rid = int64(c03Rid(src.ID))
+	}
+	addr := int64(0)
+	if src.Address.IsValid() {
+		b4 := src.Address.As16()
+		addr = 1 + int64(binary.BigEndian.Uint32(b4[12:]))
+		if src.Address.Is6() {
+			addr += 1 << 40
+		}
+	}
+	return []int64{b(c.stale), b(c.nhInvalid), -lp, b(!local), aslen, int64(*c.origin), med, b(internal), age, rid, addr}
+}
+
+func c03KeyLess(a, b []int64) bool {
+	for i := range a {
+		if a[i] != b[i] {
+			return a[i] < b[i]
+		}
+	}
+	return false
+}
+
 func c03Perms(n int, f func([]int)) {
 	p := make([]int, n)
 	for i := range p {
@@ -463,6 +528,26 @@ func TestVerifC03(t *testing.T) {
 			}
 			d := m.dump()
 			o.ask(d, "dump")
+			if comparable && len(m.dest.knownPathList) > 0 {
+				// the best path must be minimal for the documented key
+				var best *c03Cand
+				for _, c := range cands {
+					if c.id == m.ids[m.dest.knownPathList[0]] {
+						best = c
+					}
+				}
+				for _, c := range cands {
+					if best != nil && c03KeyLess(c03Key(c, SelectionOptions), c03Key(best, SelectionOptions)) {
+						lines := []string{}
+						for _, x := range cands {
+							lines = append(lines, x.line())
+						}
+						o.fail("best-not-documented", map[string]any{"opts": fmt.Sprintf("%+v", SelectionOptions), "cands": lines,
+							"arrival_order": append([]int{}, p...), "reported_best": best.id, "documented_better": c.id, "list": d})
+						break
+					}
+				}
+			}
 			if comparable {
 				if first == "" {
 					first, firstPerm = d, append([]int{}, p...)
